@@ -73,7 +73,10 @@ CFG = dict(
                  "IP set ids are typed: selector sets hold CIDRs, named-port / service sets hold (ip, protocol, port)",
                  "valid configuration = what bpfEndpointManager.extractTiers and the calc graph produce: tiers have >=1 policy or end in pass, "
                  "at most one positive destination selector set, all set ids allocated, protocol names resolve by the IANA table",
-                 "the model variant (profile log label / protocol names / profile pass) is the one the driver probes from the tree"],
+                 "the model variant (profile log label / protocol names / profile pass) is the one the driver probes from the tree: on an unfixed "
+                 "tree c11_ir_verdict_pinned / c11_pinned_compiles apply to every configuration clear of the three known-finding classes and "
+                 "c11_*_pinned_* refute the rest; with the fix patches c11_ir_verdict applies outright",
+                 "packet addresses are below 2^32 / 2^128 (needed only for the negated catch-all CIDR case)"],
     classify=classify,
 )
 
